@@ -1,11 +1,11 @@
 #!/bin/bash
-# usage: tools/regress_seeded.sh <out file> [seeded ids...]  -- every seeded change against its own target check (scratch worktrees of /repo HEAD)
+# usage: [CONFIRM=1] tools/regress_seeded.sh <out file> [seeded ids...]  -- every seeded change against its own target check (scratch worktrees of /repo HEAD)
 out="$1"; shift
 ids="$@"; [ -z "$ids" ] && ids=$(ls /verif/seeded)
 : > "$out"
 for m in $ids; do
   p=$(python3 -c "import json;print(json.load(open('/verif/seeded/$m/meta.json'))['property'])")
-  r=$(/verif/tools/eval_mutant.sh /verif/seeded/$m $p 2>&1 | grep -E '^check|INVALID|^demo|^suite' | tr '\n' ' ' | cut -c1-260)
+  r=$(/verif/tools/eval_mutant.sh /verif/seeded/$m $p 2>&1 | grep -E '^check|INVALID|^demo|^suite|HARNESS' | tr '\n' ' ' | cut -c1-260)
   echo "$m $r" >> "$out"
 done
 echo DONE >> "$out"
